@@ -60,10 +60,8 @@ impl Node {
             return None;
         }
         let old = Rec { spec: self.spec, log: std::mem::take(&mut self.log), forked_at: self.forked_at };
-        self.spec = NodeSpec { mode: self.spec.mode, ..src.spec };
-        if !(self.spec.kind.has_scalar()) && self.spec.mode == Mode::Scalar {
-            self.spec.mode = Mode::Bar;
-        }
+        // the copy is the source in every respect, including the input mode its log was recorded in
+        self.spec = src.spec;
         self.log = src.log.clone();
         self.forked_at = Some(src.log.len());
         self.count = src.count;
